@@ -15,6 +15,7 @@ IMPORTS = """import Mathlib.Algebra.BigOperators.Ring.Finset
 import Mathlib.Algebra.BigOperators.Intervals
 import Mathlib.Algebra.Order.BigOperators.Group.Finset
 import Mathlib.Data.Real.Basic
+import Mathlib.Data.Int.Interval
 import Mathlib.Data.Complex.Basic
 import Mathlib.Data.Complex.BigOperators
 import Mathlib.LinearAlgebra.Matrix.Trace
@@ -23,6 +24,20 @@ import Mathlib.Tactic.Linarith
 import Mathlib.Tactic.FieldSimp
 import Mathlib.Tactic.NormNum
 open BigOperators Finset
+"""
+
+
+PRELUDE = """
+theorem int_sum_Ico_consecutive (f : ℤ → ℝ) {a b c : ℤ} (hab : a ≤ b) (hbc : b ≤ c) :
+    ∑ k ∈ Finset.Ico a b, f k + ∑ k ∈ Finset.Ico b c, f k = ∑ k ∈ Finset.Ico a c, f k := by
+  rw [← Finset.Ico_union_Ico_eq_Ico hab hbc, Finset.sum_union (Finset.Ico_disjoint_Ico_consecutive a b c)]
+
+theorem int_sum_Ico_succ (f : ℤ → ℝ) {a b : ℤ} (hab : a ≤ b) :
+    ∑ k ∈ Finset.Ico a (b+1), f k = ∑ k ∈ Finset.Ico a b, f k + f b := by
+  rw [← int_sum_Ico_consecutive f hab (by linarith : b ≤ b+1)]
+  have : Finset.Ico b (b+1) = {b} := by
+    ext x; simp [Finset.mem_Ico]; omega
+  rw [this]; simp
 """
 
 
@@ -286,5 +301,5 @@ def bridge_lemma(name, types, hyps, concl, proof, olds=()):
         nm, cl = h if isinstance(h, tuple) else ("h%d" % i, h)
         hs.append("(%s : %s)" % (nm, clause_to_lean(cl, types)))
     stmt = "theorem %s %s\n    %s :\n    %s" % (name, " ".join(binders), "\n    ".join(hs), clause_to_lean(concl, types))
-    text = IMPORTS + "\n" + stmt + " := by\n" + "\n".join("  " + ln for ln in proof.strip().splitlines()) + "\n"
+    text = IMPORTS + PRELUDE + "\n" + stmt + " := by\n" + "\n".join("  " + ln for ln in proof.strip().splitlines()) + "\n"
     return LeanJob(name, text=text, statement=stmt)
